@@ -434,6 +434,9 @@ ASMJIT_FAVOR_SIZE Error FormatterInternal::format_register(
     if (reg_type == RegType::kVec64) {
       element_count /= 2u;
     }
+    else if (reg_type == RegType::kVec32) {
+      element_count /= 4u;
+    }
 
     ASMJIT_PROPAGATE(sb.append('.'));
     if (element_count) {
@@ -571,6 +574,11 @@ ASMJIT_FAVOR_SIZE Error FormatterInternal::format_operand(
         ASMJIT_PROPAGATE(format_shift_op(sb, m.shift_op()));
       }
       ASMJIT_PROPAGATE(sb.append_format(" %u", m.shift()));
+    }
+    else if (m.has_index() && !m.is_pre_or_post() && m.shift_op() != ShiftOp::kLSL) {
+      // An extend of the index register with a zero amount still selects a different encoding.
+      ASMJIT_PROPAGATE(sb.append(' '));
+      ASMJIT_PROPAGATE(format_shift_op(sb, m.shift_op()));
     }
 
     if (!m.is_post_index()) {
